@@ -904,7 +904,7 @@ pub fn minimise(prop: &str, sc: &Scenario, class: &str, trace: Trace, spy: bool,
     let t0 = Instant::now();
     let mut best = sc.clone();
     let mut tries = 0usize;
-    let mut ok = |cand: &Scenario, tries: &mut usize| -> bool {
+    let ok = |cand: &Scenario, tries: &mut usize| -> bool {
         if *tries >= budget || t0.elapsed().as_secs_f64() > wall_s {
             return false;
         }
@@ -1102,7 +1102,9 @@ pub fn write_evidence(e: EvidenceIn) {
         "seed": e.seed,
         "level": e.level,
         "coverage": {
-            "evaluations": e.stats.evaluations,
+            // one evaluation = one judged case; for history scenarios every generation call is judged
+            "evaluations": e.stats.evaluations.max(e.stats.calls),
+            "scenarios_executed": e.stats.evaluations,
             "distinct_nontrivial": e.stats.nontrivial.len(),
             "rule": e.rule,
             "samples": samples,
